@@ -44,11 +44,15 @@ func (e *Emulator) Close() error {
 }
 
 func (e *Emulator) SetOutputConguration(configuration xsens.OutputConfiguration) {
+	e.mutex.Lock()
 	e.outputConf = configuration
+	e.mutex.Unlock()
 }
 
 func (e *Emulator) SetSendMode() {
+	e.mutex.Lock()
 	e.lastMessageIdentifier = xsens.MessageIdentifierMTData2
+	e.mutex.Unlock()
 }
 
 func (e *Emulator) Receive(ctx context.Context) error {
@@ -82,10 +86,11 @@ func (e *Emulator) Receive(ctx context.Context) error {
 				return fmt.Errorf("receive: %w", err)
 			}
 		case xsens.MessageIdentifierSetOutputConfiguration:
+			e.mutex.Lock()
 			if err := e.outputConf.Unmarshal(m.Data()); err != nil {
+				e.mutex.Unlock()
 				return fmt.Errorf("receive: %w", err)
 			}
-			e.mutex.Lock()
 			e.lastMessageIdentifier = xsens.MessageIdentifierSetOutputConfiguration
 			e.mutex.Unlock()
 			_, err := e.port.Write(
@@ -107,7 +112,10 @@ func (e *Emulator) Receive(ctx context.Context) error {
 }
 
 func (e *Emulator) Transmit(m xsens.Message) error {
-	if e.lastMessageIdentifier != xsens.MessageIdentifierMTData2 {
+	e.mutex.Lock()
+	lastMessageIdentifier := e.lastMessageIdentifier
+	e.mutex.Unlock()
+	if lastMessageIdentifier != xsens.MessageIdentifierMTData2 {
 		return fmt.Errorf("transmit: %w", ErrNotInMeasurementMode)
 	}
 	if err := m.Validate(); err != nil {
@@ -125,6 +133,7 @@ func (e *Emulator) MarshalMessage(
 ) ([]byte, error) {
 	var id xsens.DataIdentifier
 	var isSet bool
+	e.mutex.Lock()
 	for _, d := range e.outputConf {
 		if d.DataType != dataType {
 			continue
@@ -132,6 +141,7 @@ func (e *Emulator) MarshalMessage(
 		isSet = true
 		id = d.DataIdentifier
 	}
+	e.mutex.Unlock()
 	if !isSet {
 		return nil, ErrNotInOutputConfiguration
 	}
